@@ -16,7 +16,16 @@ STRUCTS = {
     "Pos": dict(lean="Pos", ctor=lambda v: "(⟨%s, %s⟩ : Pos)" % (v["high"], v["low"]), fields={"high": U, "low": U}, fieldmap={}),
     "Parts": dict(lean="(Nat × Nat)", ctor=lambda v: "(%s, %s)" % (v["high"], v["low"]), fields={"high": U, "low": U},
                   fieldmap={"high": "1", "low": "2"}),
-    "BitVector": dict(lean="BitVector", ctor=None, fields={}, fieldmap={}),
+    "BitVector": dict(lean="BitVector", ctor=None, fields={"data": RV, "ones": U}, fieldmap={}),
+    "OneIter": dict(lean="OneIterSt", ctor=lambda v: "(⟨%s, %s⟩ : OneIterSt)" % (v["next"], v["limit"]),
+                    fields={"parent": "SKIP", "_marker": "SKIP", "next": ("T", [U, U]), "limit": ("T", [U, U])}, fieldmap={}),
+    "ZeroIter": dict(lean="OneIterSt", ctor=lambda v: "(⟨%s, %s⟩ : OneIterSt)" % (v["next"], v["limit"]),
+                     fields={"parent": "SKIP", "_marker": "SKIP", "next": ("T", [U, U]), "limit": ("T", [U, U])}, fieldmap={}),
+    "Iter": dict(lean="Cursor", ctor=lambda v: "(⟨%s, %s⟩ : Cursor)" % (v["next"], v["limit"]),
+                 fields={"parent": "SKIP", "next": U, "limit": U}, fieldmap={}),
+    "RankSupport": dict(lean="RankSup", ctor=None, fields={}, fieldmap={}),
+    "SelectI": dict(lean="SelSup", ctor=None, fields={}, fieldmap={}),
+    "SelectC": dict(lean="SelSup", ctor=None, fields={}, fieldmap={}),
     "IntVector": dict(lean="IntVec", ctor=None, fields={}, fieldmap={}),
     "RawVector": dict(lean="RawVec", ctor=None, fields={}, fieldmap={}),
     "Self": dict(lean="RawVec", ctor=None, fields={}, fieldmap={}),
@@ -58,6 +67,18 @@ CALLS = {
     "<BitVector>.count_ones": dict(lean="BitVector.countOnes {0}", ret=U, monadic=False),
     "<BitVector>.len": dict(lean="BitVector.len {0}", ret=U, monadic=False),
     "<RawVector>.int": dict(lean="gen_RawVector_int m {0} {1} {2}", ret=W),
+    "<RawVector>.bit": dict(lean="gen_RawVector_bit m {0} {1}", ret=B),
+    "<RawVector>.word": dict(lean="gen_RawVector_word m {0} {1}", ret=W),
+    "<RawVector>.word_unchecked": dict(lean="gen_RawVector_word_unchecked m {0} {1}", ret=W),
+    "<RawVector>.len": dict(lean="{0}.len", ret=U, monadic=False),
+    "<BitVector>.get": dict(lean="gen_BitVector_get m {0} {1}", ret=B),
+    "<RankSupport>.rank_unchecked": dict(lean="gen_RankSupport_rank_unchecked m {0} {1}.data {2}", ret=U),
+    "<SelectI>.select_unchecked": dict(lean="SelSup.selectU {0} .ident m {1}.data {2}", ret=U),
+    "<SelectC>.select_unchecked": dict(lean="SelSup.selectU {0} .compl m {1}.data {2}", ret=U),
+    "Identity::count_ones": dict(lean="BitVector.countOnes {0}", ret=U, monadic=False),
+    "Complement::count_ones": dict(lean="BitVector.countZeros {0}", ret=U, monadic=False),
+    "Self::OneIter::empty_iter": dict(lean="OneIterSt.emptyIter .ident {0}", ret=("N", "OneIter"), monadic=False),
+    "Self::ZeroIter::empty_iter": dict(lean="OneIterSt.emptyIter .compl {0}", ret=("N", "OneIter"), monadic=False),
 }
 
 RAW_SELF = dict(lean="RawVec", var="v", fields={"len": ("len", U), "data": ("data", A)}, order=["len", "data"])
@@ -193,6 +214,39 @@ GROUPS.append(("FnsIter.lean", ["Sds.Model.Iter", "Sds.Model.GenSupport"],
                iter_fns("ops.rs", "AccessIter", r"impl<'a, VectorType: Access<'a>> Iterator for AccessIter\b",
                         r"impl<'a, VectorType: Access<'a>> DoubleEndedIterator for AccessIter\b")
                + iter_fns("bit_vector.rs", "BitIter", r"impl<'a> Iterator for Iter<'a>", r"impl<'a> DoubleEndedIterator for Iter<'a>")))
+
+
+BV_SELF = dict(lean="BitVector", var="b", rust="BitVector", mut=False, order=[],
+               fields={"ones": ("ones", U), "data": ("data", RV), "rank": ("rank", ("O", ("N", "RankSupport"))),
+                       "select": ("select", ("O", ("N", "SelectI"))), "select_zero": ("selectZero", ("O", ("N", "SelectC")))})
+BV_CALLS = {"self.len": dict(lean="BitVector.len b", ret=U, monadic=False),
+            "self.count_ones": dict(lean="BitVector.countOnes b", ret=U, monadic=False),
+            "self.rank": dict(lean="gen_BitVector_rank m b {0}", ret=U),
+            "self.select_iter": dict(lean="gen_BitVector_select_iter m b {0}", ret=("N", "OneIter"))}
+BV_ALIAS = {"Self::OneIter": ("N", "OneIter"), "Self::ZeroIter": ("N", "OneIter"), "Self::Iter": ("N", "Iter")}
+
+
+def bv(fn, impl, name=None):
+    return dict(file="bit_vector.rs", impl=impl, fn=fn, name="gen_BitVector_" + (name or fn), self=BV_SELF, calls=BV_CALLS,
+                tyalias=BV_ALIAS)
+
+
+def tr(fn, which):
+    return dict(file="bit_vector.rs", impl=r"impl Transformation for %s\b" % which, fn=fn, name="gen_%s_%s" % (which, fn))
+
+
+GROUPS.append(("FnsBv.lean", ["Sds.Model.Iter", "Sds.Generated.FnsIdx"], [
+    bv("len", r"impl<'a> BitVec<'a> for BitVector\b"), bv("count_ones", r"impl<'a> BitVec<'a> for BitVector\b"),
+    bv("get", r"impl<'a> BitVec<'a> for BitVector\b"), bv("iter", r"impl<'a> BitVec<'a> for BitVector\b"),
+    bv("rank", r"impl<'a> Rank<'a> for BitVector\b"),
+    bv("one_iter", r"impl<'a> Select<'a> for BitVector\b"), bv("select", r"impl<'a> Select<'a> for BitVector\b"),
+    bv("select_iter", r"impl<'a> Select<'a> for BitVector\b"),
+    bv("zero_iter", r"impl<'a> SelectZero<'a> for BitVector\b"), bv("select_zero", r"impl<'a> SelectZero<'a> for BitVector\b"),
+    bv("select_zero_iter", r"impl<'a> SelectZero<'a> for BitVector\b"),
+    bv("predecessor", r"impl<'a> PredSucc<'a> for BitVector\b"), bv("successor", r"impl<'a> PredSucc<'a> for BitVector\b"),
+    tr("bit", "Identity"), tr("word", "Identity"), tr("word_unchecked", "Identity"), tr("count_ones", "Identity"),
+    tr("bit", "Complement"), tr("word", "Complement"), tr("word_unchecked", "Complement"), tr("count_ones", "Complement"),
+]))
 
 
 def generate_fn_files(read, consts_by_file):
